@@ -82,7 +82,8 @@ func zzReadEnv(ck int, v0, v1 int64) (e *env.Env, p0, p1 string, read func(i int
 }
 
 var zzReadForms = []string{"variable", "var-statement", "parameter", "list-literal", "map-literal", "defer-argument", "function-result", "swap", "rotate-through-variable",
-	"go-argument", "closure-result-after-defer", "two-targets-from-one-element", "variadic-parameter", "return-list"}
+	"go-argument", "closure-result-after-defer", "two-targets-from-one-element", "variadic-parameter", "return-list",
+	"left-operand-of-binary-operator", "left-operand-of-comparison", "spread-assignment", "spread-var"}
 
 // ZZ_C10_read_is_a_value: container kind x receiving form; old and new
 // payloads symbolic.
@@ -142,6 +143,20 @@ func ZZ_C10_read_is_a_value() {
 		want = []int64{v0}
 	case 13:
 		src = "f = func() { defer func() { " + p0 + " = wnew }(); return " + p0 + ", " + p1 + " }; f()"
+		want = []int64{v0, v1}
+	case 14:
+		// the left operand is read before the right operand runs
+		src = "[" + p0 + " - func() { " + p0 + " = wnew; return 0 }()]"
+		want = []int64{v0}
+	case 15:
+		src = "b = " + p0 + " == func() { old = " + p0 + "; " + p0 + " = wnew; return old }(); [b ? " + p1 + " : wnew - 1]"
+		want = []int64{v1}
+	case 16, 17:
+		// `x, y = c` spreads a slice over its targets
+		if ck != 0 && ck != 1 {
+			return
+		}
+		src = []string{"x, y = c", "var x, y = c"}[form-16] + "; c[0] = wnew; [x, y]"
 		want = []int64{v0, v1}
 	}
 	zz.Budget(400000)
